@@ -343,10 +343,6 @@ func (x *Exec) freshErr(st *State, hint string) Value {
 }
 
 func init() {
-	// Closing a reader / file has no effect on modelled state.
-	noEffect := func(x *Exec, fr *Frame, st *State, pc *preparedCall, k func(*State, []Value)) {
-		k(st, []Value{x.freshErr(st, "closeerr")})
-	}
 	// Closing the body of a request read by http.ReadRequest discards what is left of it
 	// (net/http: body.Close consumes the body unless the server asked for an early close).
 	closeBody := func(x *Exec, fr *Frame, st *State, pc *preparedCall, k func(*State, []Value)) {
@@ -354,12 +350,18 @@ func init() {
 		src := x.ghostSel(st, "bodyof", id)
 		cur := x.ghostSel(st, "bodypending", src)
 		x.ghostSet(st, "bodypending", src, Ite(And(Ne(src, IntLit(0)), Eq(cur, id)), IntLit(0), cur))
+		// (EntryData embeds io.ReadSeekCloser: closing a cache entry's handle arrives here as well)
+		x.ghostSet(st, "closedh", id, IntLit(1))
 		k(st, []Value{x.freshErr(st, "closeerr")})
 	}
 	models["io.Closer.Close"] = closeBody
 	models["io.ReadCloser.Close"] = closeBody
-	models["reservoir/cache.EntryData.Close"] = noEffect
-	models["io.ReadSeekCloser.Close"] = noEffect
+	// Closing the handle of a cache entry: observable (closedh) - a closed handle yields no body
+	models["reservoir/cache.EntryData.Close"] = func(x *Exec, fr *Frame, st *State, pc *preparedCall, k func(*State, []Value)) {
+		x.ghostSet(st, "closedh", x.identityOf(st, pc.recv), IntLit(1))
+		k(st, []Value{x.freshErr(st, "closeerr")})
+	}
+	models["io.ReadSeekCloser.Close"] = models["reservoir/cache.EntryData.Close"] // EntryData embeds io.ReadSeekCloser
 }
 
 func (x *Exec) ioErrAxiom() {
